@@ -245,6 +245,13 @@ UNITS["C13"] = [
        tiers=("thorough",), timeout_s=1800),
     _k("c13_source_map_ignores_empty_chunks", "fea-rs", "fea-rs/src/parse/source.rs", ["fea_rs::parse::source::SourceMap::add_entry"], "complete", "any position < 2^40; loop-free", "-",
        "an empty chunk is not recorded, a non-empty one is"),
+    _k("c13_glyphs_number_ident_split_tiles_the_token_up_to_4_bytes", "fea-rs", "fea-rs/src/parse/grammar/metrics.rs",
+       ["fea_rs::parse::grammar::metrics::split_ident_with_hyphen", "fea_rs::parse::grammar::metrics::take_next_token"], "bounded",
+       "every valid UTF-8 token text of 1..=4 bytes", "any token text",
+       "the splitter does not panic and leaves either an empty buffer or ranges that start at 0, have no gaps, are non-empty and cover the whole token (the precondition under which Parser::split_remap_current does not panic and loses no byte)", timeout_s=1200),
+    _k("c13_glyphs_number_ident_split_tiles_the_token_5_bytes", "fea-rs", "fea-rs/src/parse/grammar/metrics.rs",
+       ["fea_rs::parse::grammar::metrics::split_ident_with_hyphen", "fea_rs::parse::grammar::metrics::take_next_token"], "bounded",
+       "every valid UTF-8 token text of exactly 5 bytes", "any token text", "same as the <= 4 byte obligation", tiers=("thorough",), timeout_s=1800),
     _k("c13_lexer_cover", "fea-rs", "fea-rs/src/parse/lexer.rs", [], "complete", "", "", "identifier, non-ASCII character, number reachable in the companion's input generator", kind="cover", timeout_s=1800, on_demand=True),
 ]
 
